@@ -4,8 +4,10 @@
  *   P <start> <old> <fmt> <nargs> <arg>... T <n> (<frag> <val> <out>)...   print_to_with(sink, start, fmt, args); the table is for the model only
  *   K ...same...                                                           same, plus the claim "sink unchanged when FormatError is raised" (known finding F29)
  *   M <start> <old> <fmt> <nargs> <arg>...                                 format outside the grammar, run in a forked child: does it leave its buffers?
- *   J <start> <old> <fmt> <nargs> <arg>...                                 a specification libc rejects (e.g. %lc with a wide character the locale cannot
- *                                                                          encode), forked: is the String sink still a C string afterwards? (candidate finding)
+ *   J ...same as P...                                                      the same run and the same checks in a forked child (a tree in which String_Format_To goes
+ *                                                                          on with a negative size corrupts the heap); the grammar additionally admits %lc.  Used for
+ *                                                                          specifications libc REJECTS (negative result): %lc with a wide character the "C" locale
+ *                                                                          cannot encode, a width/precision that overflows int
  *   arg ::= i <int64> | f <16 hex digits: bits of the double> | s <bytes> | A <n> <arg>... | U <n> <arg>... | L <n> <arg>...
  *
  * For a P/K op the format is first split by an independent reference parser of the grammar
@@ -25,12 +27,14 @@
  * independent implementation of show for Int / Float / String / Array / Tuple / List; when the argument classes allow it
  * also ONE snprintf call with the whole format.  Expected position = start + length; File content = String content;
  * the recorded calls = the reference segments with the arguments in order; FormatError exactly when a specification has
- * no argument. */
+ * no argument or libc itself rejects a specification (its snprintf returns < 0): then the sinks hold exactly what the segments
+ * before it wrote (a String that received nothing is untouched), the rejected call is the last one recorded. */
 #include "common.h"
 #include <inttypes.h>
 #include <stddef.h>
 #include <errno.h>
 #include <fcntl.h>
+#include <wchar.h>
 
 /* ------------------------------------------------------------------ byte buffers */
 typedef struct { unsigned char* p; size_t n, cap; } Buf;
@@ -120,14 +124,15 @@ static void unbuild(ArgD* a) {
 typedef struct { int kind; /* 0 literal, 1 %%, 2 specification */ size_t off, len; char conv; char lm[3]; } SegD;
 
 static const char* INTC = "diuoxX"; static const char* FLTC = "fFeEgGaA";
-static int lenmod_ok(char conv, const char* lm) {
+static int lenmod_ok(char conv, const char* lm, int wide) {
+  if (wide && conv == 'c' && !strcmp(lm, "l")) return 1;
   if (strchr(INTC, conv)) return lm[0] == 0 || !strcmp(lm, "hh") || !strcmp(lm, "h") || !strcmp(lm, "l") || !strcmp(lm, "ll") || !strcmp(lm, "j") || !strcmp(lm, "z") || !strcmp(lm, "t");
   if (strchr(FLTC, conv)) return lm[0] == 0 || !strcmp(lm, "l");
   if (conv == 'c' || conv == 's' || conv == 'p' || conv == '$') return lm[0] == 0;
   return 0;
 }
 /* returns number of segments, or -1 when the format is outside the grammar */
-static int parse_fmt(const unsigned char* f, size_t n, SegD** out) {
+static int parse_fmt(const unsigned char* f, size_t n, SegD** out, int wide) {
   size_t cap = 16; int ns = 0; SegD* s = malloc(cap * sizeof(SegD)); size_t i = 0;
   while (i < n) {
     if ((size_t)ns == cap) { cap *= 2; s = realloc(s, cap * sizeof(SegD)); }
@@ -142,7 +147,7 @@ static int parse_fmt(const unsigned char* f, size_t n, SegD** out) {
     if (i + 1 < n && ((f[i] == 'h' && f[i+1] == 'h') || (f[i] == 'l' && f[i+1] == 'l'))) { g->lm[0] = (char)f[i]; g->lm[1] = (char)f[i+1]; l = 2; }
     else if (i < n && f[i] && strchr("hljzt", f[i])) { g->lm[0] = (char)f[i]; l = 1; }
     i += (size_t)l;
-    if (i >= n || !f[i] || !strchr("diuoxXcsfFeEgGaAp$", f[i]) || !lenmod_ok((char)f[i], g->lm)) { free(s); return -1; }
+    if (i >= n || !f[i] || !strchr("diuoxXcsfFeEgGaAp$", f[i]) || !lenmod_ok((char)f[i], g->lm, wide)) { free(s); return -1; }
     g->kind = 2; g->conv = (char)f[i]; i++; g->len = i - g->off; ns++;
   }
   *out = s; return ns;
@@ -151,11 +156,13 @@ static int parse_fmt(const unsigned char* f, size_t n, SegD** out) {
 /* ------------------------------------------------------------------ reference show and per-specification libc call */
 static void ref_show(ArgD* a, Buf* out);
 static void ref_items(ArgD* a, Buf* out) { for (int k = 0; k < a->n; k++) { if (k) buf_puts(out, ", "); ref_show(a->items[k], out); } }
-static void putf(Buf* out, const char* fmt, ...) {
+/* appends what libc prints; returns -1 (appending nothing) when libc rejects the call */
+static int putf(Buf* out, const char* fmt, ...) {
   va_list va, vb; va_start(va, fmt); va_copy(vb, va);
   int n = vsnprintf(NULL, 0, fmt, va); va_end(va);
-  if (n < 0) { va_end(vb); buf_puts(out, "<libc-error>"); return; }
+  if (n < 0) { va_end(vb); return -1; }
   buf_need(out, (size_t)n + 1); vsnprintf((char*)out->p + out->n, (size_t)n + 1, fmt, vb); va_end(vb); out->n += (size_t)n;
+  return 0;
 }
 static void ref_show(ArgD* a, Buf* out) {
   switch (a->kind) {
@@ -178,21 +185,22 @@ static void ref_show(ArgD* a, Buf* out) {
 /* the class a conversion needs: 'i' Int, 'f' Float, 's' String, 'p'/'$' anything */
 static char need_of(char conv) { if (strchr(INTC, conv) || conv == 'c') return 'i'; if (strchr(FLTC, conv)) return 'f'; if (conv == 's') return 's'; return '*'; }
 
-static void ref_spec(const char* spec, const SegD* g, ArgD* a, Buf* out) {
+/* returns -1 when libc rejects the specification (nothing appended) */
+static int ref_spec(const char* spec, const SegD* g, ArgD* a, Buf* out) {
   const char* lm = g->lm; int64_t v = a->i;
-  if (g->conv == '$') { ref_show(a, out); return; }
-  if (g->conv == 's') { putf(out, spec, (char*)a->s.p); return; }
-  if (g->conv == 'p') { putf(out, spec, (void*)a->obj); return; }
-  if (g->conv == 'c') { putf(out, spec, (int)v); return; }
-  if (strchr(FLTC, g->conv)) { putf(out, spec, a->d); return; }
+  if (g->conv == '$') { ref_show(a, out); return 0; }
+  if (g->conv == 's') return putf(out, spec, (char*)a->s.p);
+  if (g->conv == 'p') return putf(out, spec, (void*)a->obj);
+  if (g->conv == 'c') return !strcmp(lm, "l") ? putf(out, spec, (wint_t)v) : putf(out, spec, (int)v);
+  if (strchr(FLTC, g->conv)) return putf(out, spec, a->d);
   if (g->conv == 'd' || g->conv == 'i') {
-    if (!strcmp(lm, "l")) putf(out, spec, (long)v); else if (!strcmp(lm, "ll")) putf(out, spec, (long long)v);
-    else if (!strcmp(lm, "j")) putf(out, spec, (intmax_t)v); else if (!strcmp(lm, "z")) putf(out, spec, (ssize_t)v);
-    else if (!strcmp(lm, "t")) putf(out, spec, (ptrdiff_t)v); else putf(out, spec, (int)v);   /* "", h, hh: an int, converted by printf */
+    if (!strcmp(lm, "l")) return putf(out, spec, (long)v); else if (!strcmp(lm, "ll")) return putf(out, spec, (long long)v);
+    else if (!strcmp(lm, "j")) return putf(out, spec, (intmax_t)v); else if (!strcmp(lm, "z")) return putf(out, spec, (ssize_t)v);
+    else if (!strcmp(lm, "t")) return putf(out, spec, (ptrdiff_t)v); else return putf(out, spec, (int)v);   /* "", h, hh: an int, converted by printf */
   } else {
-    if (!strcmp(lm, "l")) putf(out, spec, (unsigned long)v); else if (!strcmp(lm, "ll")) putf(out, spec, (unsigned long long)v);
-    else if (!strcmp(lm, "j")) putf(out, spec, (uintmax_t)v); else if (!strcmp(lm, "z")) putf(out, spec, (size_t)v);
-    else if (!strcmp(lm, "t")) putf(out, spec, (ptrdiff_t)v); else putf(out, spec, (unsigned int)v);
+    if (!strcmp(lm, "l")) return putf(out, spec, (unsigned long)v); else if (!strcmp(lm, "ll")) return putf(out, spec, (unsigned long long)v);
+    else if (!strcmp(lm, "j")) return putf(out, spec, (uintmax_t)v); else if (!strcmp(lm, "z")) return putf(out, spec, (size_t)v);
+    else if (!strcmp(lm, "t")) return putf(out, spec, (ptrdiff_t)v); else return putf(out, spec, (unsigned int)v);
   }
 }
 
@@ -262,7 +270,7 @@ static int parse_op(char** tok, int ntok, int* k, OpD* o) {
   return 1;
 }
 
-static size_t n_spec = 0, n_ops = 0, n_toofew = 0, n_show = 0, n_whole = 0;
+static size_t n_spec = 0, n_ops = 0, n_toofew = 0, n_show = 0, n_whole = 0, n_rej = 0;
 
 /* one snprintf with the whole format, possible when the integer-class values fit the 4 free integer registers (putf has 2 named parameters) and the
    doubles the 8 vector registers of the x86-64 calling convention (their relative order is then irrelevant) */
@@ -284,9 +292,9 @@ static int whole_format(const OpD* op, const SegD* segs, int ns, Buf* out) {
 #endif
 }
 
-static void run_P(OpD* op, size_t line, int claim_unchanged) {
+static void run_P(OpD* op, size_t line, int claim_unchanged, int wide) {
   SegD* segs = NULL;
-  int ns = parse_fmt(op->fmt.p, op->fmt.n, &segs);
+  int ns = parse_fmt(op->fmt.p, op->fmt.n, &segs, wide);
   if (ns < 0) { O("outside-grammar"); return; }
   n_ops++;
   for (int k = 0; k < op->nargs; k++) build(op->args[k]);
@@ -298,7 +306,7 @@ static void run_P(OpD* op, size_t line, int claim_unchanged) {
 
   /* ---- oracle: expected text, exception, calls */
   Buf exp = {0}; buf_reset(&exp);
-  const char* exp_exc = "none"; int karg = 0; int stop_seg = ns;
+  const char* exp_exc = "none"; int karg = 0; int stop_seg = ns; int rejected = 0;   /* rejected: libc refuses segment stop_seg */
   Buf spec = {0};
   for (int s = 0; s < ns; s++) {
     const SegD* g = &segs[s];
@@ -312,11 +320,11 @@ static void run_P(OpD* op, size_t line, int claim_unchanged) {
       if (need != '*' && need != a->kind) { exp_exc = "ClassError"; stop_seg = s; break; }
       if (g->conv == '$') n_show++;
       buf_reset(&spec); buf_put(&spec, op->fmt.p + g->off, g->len);
-      ref_spec((const char*)spec.p, g, a, &exp);
+      if (ref_spec((const char*)spec.p, g, a, &exp) < 0) { exp_exc = "FormatError"; stop_seg = s; rejected = 1; n_rej++; karg--; break; }
     }
   }
   int nsp = 0; for (int s = 0; s < ns; s++) if (segs[s].kind == 2) nsp++;
-  if ((nsp > op->nargs) != (strcmp(exp_exc, "FormatError") == 0) && strcmp(exp_exc, "ClassError") != 0)
+  if (!rejected && (nsp > op->nargs) != (strcmp(exp_exc, "FormatError") == 0) && strcmp(exp_exc, "ClassError") != 0)
     X("sig=harness-internal line=%zu what=oracle bookkeeping", line);
 
   /* ---- W: recording sink in front of a String */
@@ -326,24 +334,29 @@ static void run_P(OpD* op, size_t line, int claim_unchanged) {
   var exc; int posW = -1;
   V_TRY(exc, posW = print_to_with(rec, op->start, fmt, args));
   const char* excW = v_exc_name(exc);
-  /* pieces must tile [start, end) */
-  int end = op->start; int tiled = 1; long ptr_extra = 0;
+  /* pieces must tile [start, end); only the last call may have been rejected (negative result) */
+  int end = op->start; int tiled = 1; long ptr_extra = 0; size_t n_acc = 0;
   for (size_t k = 0; k < rec_n; k++) {
+    if (rec_calls[k].ret < 0 && k + 1 == rec_n) break;
     if (rec_calls[k].pos != end || rec_calls[k].ret < 0) { tiled = 0; break; }
-    end += rec_calls[k].ret;
+    end += rec_calls[k].ret; n_acc++;
     if (rec_calls[k].vk == 'p') ptr_extra += rec_calls[k].ret - 3;
   }
   if (!tiled) X("sig=fmt-position line=%zu what=format_to calls are not made at consecutive positions from the start position", line);
   if (exc == NULL && posW != end) X("sig=fmt-position line=%zu what=returned position %d but the calls end at %d", line, posW, end);
-  /* a String that received no format_to call is untouched (all of <old>); after a call it ends where the call ended */
-  size_t rawW_n = rec_n == 0 ? op->old.n : (size_t)end; unsigned char* rawW = malloc(rawW_n + 1);
-  memcpy(rawW, ((struct String*)inner)->val, rawW_n); rawW[rawW_n] = 0;
-  if (rec_n == 0 && strlen(((struct String*)inner)->val) != op->old.n) X("sig=fmt-output line=%zu what=String sink changed without any format_to call", line);
+  if (exc == NULL && n_acc != rec_n) X("sig=fmt-reject line=%zu what=a format_to call returned a negative result and print_to_with did not raise", line);
+  /* a String that received no accepted format_to call is untouched (all of <old>); after one it ends where the call ended */
+  const char* valW = ((struct String*)inner)->val;
+  if (valW == NULL) { X("sig=fmt-output line=%zu what=String sink has lost its buffer (val is NULL) after %s", line, excW); valW = ""; }
+  size_t rawW_n = n_acc == 0 ? op->old.n : (size_t)end; unsigned char* rawW = malloc(rawW_n + 1);
+  if (((struct String*)inner)->val == NULL) rawW_n = 0;      /* (text written by %c can contain NUL bytes: no strlen here) */
+  memcpy(rawW, valW, rawW_n); rawW[rawW_n] = 0;
+  if (n_acc == 0 && strlen(valW) != op->old.n) X("sig=fmt-output line=%zu what=String sink changed although libc accepted no format_to call", line);
   /* canonical text: pointer renderings replaced; `canonF` = what a File holding old[0..start) must contain */
   Buf canon = {0}, canonF = {0}; buf_reset(&canon); buf_reset(&canonF);
   buf_put(&canonF, op->old.p, (size_t)op->start);
-  if (rec_n == 0) buf_put(&canon, rawW, rawW_n); else buf_put(&canon, rawW, (size_t)op->start <= rawW_n ? (size_t)op->start : rawW_n);
-  if (tiled) for (size_t k = 0; k < rec_n; k++) {
+  if (n_acc == 0) buf_put(&canon, rawW, rawW_n); else buf_put(&canon, rawW, (size_t)op->start <= rawW_n ? (size_t)op->start : rawW_n);
+  if (tiled) for (size_t k = 0; k < n_acc; k++) {
     if (rec_calls[k].vk == 'p') { buf_puts(&canon, "<P>"); buf_puts(&canonF, "<P>"); }
     else { buf_put(&canon, rec_calls[k].out, (size_t)rec_calls[k].ret); buf_put(&canonF, rec_calls[k].out, (size_t)rec_calls[k].ret); }
   }
@@ -371,7 +384,8 @@ static void run_P(OpD* op, size_t line, int claim_unchanged) {
 
   /* ---- oracle checks on W */
   if (strcmp(excW, exp_exc) != 0) {
-    if (!strcmp(exp_exc, "FormatError") || !strcmp(excW, "FormatError"))
+    if (rejected) X("sig=fmt-reject line=%zu what=libc rejects specification %d (negative result): expected FormatError, got %s", line, stop_seg, excW);
+    else if (!strcmp(exp_exc, "FormatError") || !strcmp(excW, "FormatError"))
       X("sig=fmt-toofew line=%zu what=%d specifications, %d arguments: expected %s, got %s", line, nsp, op->nargs, exp_exc, excW);
     else X("sig=fmt-exc line=%zu what=expected exception %s, got %s", line, exp_exc, excW);
   }
@@ -426,6 +440,13 @@ static void run_P(OpD* op, size_t line, int claim_unchanged) {
         }
       }
     }
+    if (!bad && rejected) {   /* the rejected specification: called once, with its argument, negative result, nothing after it */
+      const SegD* g = &segs[stop_seg]; ArgD* a = op->args[ka]; CallD* r = c < rec_n ? &rec_calls[c] : NULL; char need = need_of(g->conv);
+      if (!r || r->ret >= 0 || strlen(r->frag) != g->len || memcmp(r->frag, op->fmt.p + g->off, g->len) != 0 ||
+          (need == 'i' && !(r->vk == 'i' && r->i == a->i)) || (need == 'f' && !(r->vk == 'd' && r->bits == a->bits)) ||
+          (need == 's' && !(r->vk == 's' && strcmp(r->s, (char*)a->s.p) == 0))) { bad = 1; snprintf(why, sizeof why, "segment %d: the call libc rejects", stop_seg); }
+      c++;
+    }
     if (!bad && c != rec_n) { bad = 1; snprintf(why, sizeof why, "%zu calls recorded, %zu expected", rec_n, c); }
     if (bad) X("sig=fmt-segments line=%zu what=format_to calls differ from the segments of the format: %s", line, why);
   }
@@ -438,10 +459,11 @@ static void run_P(OpD* op, size_t line, int claim_unchanged) {
   var s2 = new_raw(String, $S((char*)op->old.p)); int posS = -1; var excS;
   V_TRY(excS, posS = print_to_with(s2, op->start, fmt, args));
   {
-    int same = excS == exc && (excS != NULL || posS == posW) && memcmp(((struct String*)s2)->val, rawW, rawW_n) == 0;
+    const char* valS = ((struct String*)s2)->val; if (valS == NULL) valS = "";
+    int same = excS == exc && (excS != NULL || posS == posW) && (((struct String*)s2)->val != NULL || rawW_n == 0) && memcmp(valS, rawW, rawW_n) == 0 && (n_acc > 0 || strlen(valS) == rawW_n);
     if (same) O("S exc=%s pos=%s str=%s", v_exc_name(excS), posbuf, (char*)hx.p);
     else {
-      Buf a = {0}; buf_reset(&a); size_t l2 = strlen(((struct String*)s2)->val); hex_of((unsigned char*)((struct String*)s2)->val, l2, &a);
+      Buf a = {0}; buf_reset(&a); size_t l2 = strlen(valS); hex_of((unsigned char*)valS, l2, &a);
       O("S exc=%s pos=%d raw=%s", v_exc_name(excS), posS, (char*)a.p);
       X("sig=fmt-recsink line=%zu what=plain String sink differs from the recorded run", line);
       buf_free(&a);
@@ -462,7 +484,7 @@ static void run_P(OpD* op, size_t line, int claim_unchanged) {
     unsigned char* fb = malloc((size_t)sz + 1); rewind(fp); size_t got = fread(fb, 1, (size_t)sz, fp); fb[got] = 0;
     size_t outn = (size_t)(end - op->start);   /* the text of the recorded run: raw bytes [start, end) of its String */
     int same = excF == exc && (excF != NULL || posF == posW) && got == (size_t)op->start + outn && memcmp(fb, op->old.p, (size_t)op->start) == 0 &&
-               (outn == 0 || memcmp(fb + op->start, ((struct String*)inner)->val + op->start, outn) == 0);
+               (outn == 0 || memcmp(fb + op->start, rawW + op->start, outn) == 0);
     if (same) O("F exc=%s pos=%s out=%s", v_exc_name(excF), posbuf, (char*)hxF.p);
     else {
       Buf a = {0}; buf_reset(&a); hex_of(fb, got, &a);
@@ -502,39 +524,25 @@ static void run_M(OpD* op, size_t line) {
   I("M line=%zu status=%d", line, st);
 }
 
-/* A specification that libc itself rejects: vsnprintf returns -1, String_Format_To computes realloc(val, pos + (-1) + 1). */
+/* op J: run_P with the wide grammar in a forked child.  A tree in which String_Format_To goes on with a negative size (before fix a626877:
+   realloc(val, pos + (-1) + 1), then vsprintf writes its terminator outside the block) dies here under ASan; the parent reports it. */
 static void run_J(OpD* op, size_t line) {
-  fflush(stdout);
-  int pfd[2]; if (pipe(pfd)) { perror("pipe"); exit(2); }
+  fflush(stdout); fflush(tmp_fp);
   pid_t pid = fork();
   if (pid == 0) {
-    close(pfd[0]);
     int dn = open("/dev/null", 1); if (dn >= 0) { dup2(dn, 2); }
     alarm(20);
-    for (int k = 0; k < op->nargs; k++) build(op->args[k]);
-    var* items = calloc((size_t)op->nargs + 1, sizeof(var));
-    for (int k = 0; k < op->nargs; k++) items[k] = op->args[k]->obj;
-    items[op->nargs] = Terminal;
-    var args = $(Tuple, items);
-    var s = new_raw(String, $S((char*)op->old.p)); var exc; int pos = 0;
-    V_TRY(exc, pos = print_to_with(s, op->start, (const char*)op->fmt.p, args));
-    (void)pos;
-    dprintf(pfd[1], "%s", v_exc_name(exc));
-    volatile size_t l = strlen(((struct String*)s)->val);     /* the String must still be a C string */
-    dprintf(pfd[1], " len=%zu", (size_t)l);
+    run_P(op, line, 0, 1);
+    fflush(stdout);
     _exit(0);
   }
-  close(pfd[1]);
-  char buf[128]; ssize_t n = read(pfd[0], buf, sizeof buf - 1); if (n < 0) n = 0; buf[n] = 0;
-  { char more[64]; ssize_t m; while ((m = read(pfd[0], more, sizeof more)) > 0 && (size_t)n + (size_t)m < sizeof buf - 1) { memcpy(buf + n, more, (size_t)m); n += m; buf[n] = 0; } }
-  close(pfd[0]);
   int st = 0; waitpid(pid, &st, 0);
-  O("J");
   int died = WIFSIGNALED(st) || (WIFEXITED(st) && WEXITSTATUS(st) != 0);
-  I("J line=%zu status=%d child=%s", line, st, buf);
-  if (died) X("sig=fmt-libc-reject line=%zu what=libc rejects the specification; print_to_with raised %s and left the String sink without a terminator (reading it back leaves the buffer, child status %d)", line, buf[0] ? buf : "?", st);
-  else if (strncmp(buf, "FormatError", 11) != 0 && strncmp(buf, "none", 4) != 0)
-    X("sig=fmt-libc-reject line=%zu what=libc rejects the specification; print_to_with raised %s instead of FormatError", line, buf);
+  I("J line=%zu status=%d", line, st);
+  if (died) {
+    O("J died");
+    X("sig=fmt-reject-crash line=%zu what=print_to_with on a format with a specification libc rejects: the process died (wait status %d) — memory error in String_Format_To / the sink is no longer a C string", line, st);
+  }
 }
 
 int main(int argc, char** argv) {
@@ -554,7 +562,7 @@ int main(int argc, char** argv) {
     if (v_skippable(l)) continue;
     char* copy = strdup(l); char** tok; int ntok = split(copy, &tok);
     OpD op; int k = 0; int ok = 0;
-    if (ntok > 0 && (!strcmp(tok[0], "P") || !strcmp(tok[0], "K"))) {
+    if (ntok > 0 && (!strcmp(tok[0], "P") || !strcmp(tok[0], "K") || !strcmp(tok[0], "J"))) {
       ok = parse_op(tok, ntok, &k, &op);
       /* the table: T <n> then 3n tokens — checked for shape only */
       if (ok) {
@@ -562,7 +570,7 @@ int main(int argc, char** argv) {
         if (k + 1 < ntok && !strcmp(tok[k], "T") && parse_i64(tok[k+1], &m) && m >= 0 && (int64_t)(ntok - k - 2) == 3 * m) {
           Buf t = {0}; buf_reset(&t);
           for (int j = k + 2; j < ntok && ok; j += 3) {
-            if (!unhex(tok[j], &t) || !unhex(tok[j+2], &t)) ok = 0;
+            if (!unhex(tok[j], &t) || (strcmp(tok[j+2], "!") != 0 && !unhex(tok[j+2], &t))) ok = 0;
             const char* v = tok[j+1]; int64_t iv;
             if (v[0] == 'i') { if (!parse_i64(v + 1, &iv)) ok = 0; }
             else if (v[0] == 'd') { if (strlen(v) < 2 || strlen(v) > 17) ok = 0; for (const char* p = v + 1; *p; p++) if (hexv(*p) < 0) ok = 0; }
@@ -572,15 +580,15 @@ int main(int argc, char** argv) {
           buf_free(&t);
         } else ok = 0;
       }
-      if (ok) run_P(&op, li + 1, tok[0][0] == 'K'); else O("bad-op");
+      if (!ok) O("bad-op"); else if (tok[0][0] == 'J') run_J(&op, li + 1); else run_P(&op, li + 1, tok[0][0] == 'K', 0);
       op_free(&op);
-    } else if (ntok > 0 && (!strcmp(tok[0], "M") || !strcmp(tok[0], "J"))) {
+    } else if (ntok > 0 && !strcmp(tok[0], "M")) {
       ok = parse_op(tok, ntok, &k, &op) && k == ntok;
-      if (!ok) O("bad-op"); else if (tok[0][0] == 'M') run_M(&op, li + 1); else run_J(&op, li + 1);
+      if (!ok) O("bad-op"); else run_M(&op, li + 1);
       op_free(&op);
     } else O("bad-op");
     free(tok); free(copy);
   }
-  I("ops=%zu specs=%zu toofew=%zu show=%zu whole=%zu", n_ops, n_spec, n_toofew, n_show, n_whole);
+  I("ops=%zu specs=%zu toofew=%zu show=%zu whole=%zu rejected=%zu", n_ops, n_spec, n_toofew, n_show, n_whole, n_rej);
   return 0;
 }
